@@ -16,7 +16,14 @@ func All[T any](s []T, f func(T) bool) bool {
 //
 // Returns an empty slice if len(s)==0. Panics if chunkSize <= 0.
 func Chunk[T any](s []T, chunkSize int) [][]T {
-	out := make([][]T, (len(s)+chunkSize-1)/chunkSize)
+	if chunkSize <= 0 {
+		panic("xslices.Chunk: chunkSize must be positive")
+	}
+	n := len(s) / chunkSize
+	if len(s)%chunkSize != 0 {
+		n++
+	}
+	out := make([][]T, n)
 	for i := range out {
 		start := i * chunkSize
 		end := (i + 1) * chunkSize
